@@ -82,8 +82,14 @@ func Boot(mode string, k *plan.Knobs) error {
 		qt = k.QueryTimeoutSec
 	}
 	fmt.Fprintf(&y, "queryTimeoutSecs: %d\n", qt)
-	if k.LowMem {
-		y.WriteString("memoryLimits:\n  lowMemoryMode: true\n")
+	if k.LowMem || k.MemBytes > 0 {
+		y.WriteString("memoryLimits:\n")
+		if k.LowMem {
+			y.WriteString("  lowMemoryMode: true\n")
+		}
+		if k.MemBytes > 0 {
+			fmt.Fprintf(&y, "  maxMemoryAllowedToUseInBytes: %d\n", k.MemBytes)
+		}
 	}
 	cfg, err := config.ExtractConfigData([]byte(y.String()))
 	if err != nil {
